@@ -116,4 +116,5 @@ for _nm, _tiers, _k, _calls, _unw, _to in [("index_hash_exact_1call", ("quick", 
          "lzma_index_hash_size() equals the size of that encoding; no out-of-bounds access",
     bounds_q="K <= %d Block(s), sizes < 2^14 (VLIs of 1-2 bytes), every byte string of <= %d bytes as Index, %d symbolic cut point(s)" % (_k, 9 + 4 * _k, _calls),
     outside="more than two Records (the digest abstraction holds two); sizes beyond the bound (the full-range VLI decoder is decided in C06 vli_decode obligations)"))
+OBLIGATIONS += reuse("C02", r"block_(unpadded|compressed)_size_arith")   # Unpadded Size <-> Compressed Size arithmetic used to cross-check Block and Index
 OBLIGATIONS += reuse("C03", r"lzma2_chunk_layer|index_decoder_vs_spec|index_buffer_decode")   # corrupt LZMA2 chunk headers / sizes, damaged or truncated Index fields never accepted
